@@ -1,0 +1,77 @@
+//go:build verif
+
+// Contracts for the engine facade, read by /verif/kvc (contract-based deductive verification).
+// The facade is verified against the call-history contract of interfaces.StorageManager
+// (writes = number of Put/Delete/ApplyBatch calls that reached storage).
+// Comment-only; excluded from every build without the `verif` tag.
+package engine
+
+// ---- C16: a read-only engine rejects every client mutation with ErrReadOnlyMode and leaves storage untouched;
+// otherwise exactly one storage call with the caller's byte strings (C19/C01 delegation).
+//@ func (*EngineFacade).Put
+//@   requires e.storage != nil && e.stats != nil
+//@   ensures[C16] old(e.readOnly) && !old(e.closed) ==> err == ErrReadOnlyMode
+//@   ensures[C16] old(e.readOnly) || old(e.closed) ==> err != nil && e.storage.writes == old(e.storage.writes)
+//@   ensures[C16,C19,C01] !old(e.readOnly) && !old(e.closed) ==> e.storage.writes == old(e.storage.writes) + 1 && e.storage.lastKey == bstr(key) && e.storage.lastVal == bstr(value) && e.storage.lastValNil == (value == nil)
+//@   ensures[C16] e.readOnly == old(e.readOnly)
+//@ func (*EngineFacade).Delete
+//@   requires e.storage != nil && e.stats != nil
+//@   ensures[C16] old(e.readOnly) && !old(e.closed) ==> err == ErrReadOnlyMode
+//@   ensures[C16] old(e.readOnly) || old(e.closed) ==> err != nil && e.storage.writes == old(e.storage.writes)
+//@   ensures[C16,C19,C01] !old(e.readOnly) && !old(e.closed) ==> e.storage.writes == old(e.storage.writes) + 1 && e.storage.lastKey == bstr(key)
+//@   ensures[C16] e.readOnly == old(e.readOnly)
+//@ func (*EngineFacade).ApplyBatch
+//@   requires e.storage != nil && e.stats != nil
+//@   ensures[C16] old(e.readOnly) && !old(e.closed) ==> err == ErrReadOnlyMode
+//@   ensures[C16] old(e.readOnly) || old(e.closed) ==> err != nil && e.storage.writes == old(e.storage.writes)
+//@   ensures[C16,C03] !old(e.readOnly) && !old(e.closed) ==> e.storage.writes == old(e.storage.writes) + 1
+//@   ensures[C16] e.readOnly == old(e.readOnly)
+//@ loop (*EngineFacade).ApplyBatch#1
+//@   invariant[C16] e.storage.writes == old(e.storage.writes) && e.readOnly == old(e.readOnly)
+//@ loop (*EngineFacade).ApplyBatch#2
+//@   invariant[C16] e.storage.writes == old(e.storage.writes) + 1 && e.readOnly == old(e.readOnly)
+
+// Internal applier entries: bypass the guard, used only by pkg/replication (enumerated on the call graph).
+//@ func (*EngineFacade).PutInternal
+//@   requires e.storage != nil && e.stats != nil
+//@   ensures[C16,C13] !old(e.closed) ==> e.storage.writes == old(e.storage.writes) + 1 && e.storage.lastKey == bstr(key) && e.storage.lastVal == bstr(value)
+//@   ensures[C16] e.readOnly == old(e.readOnly)
+//@ func (*EngineFacade).DeleteInternal
+//@   requires e.storage != nil && e.stats != nil
+//@   ensures[C16,C13] !old(e.closed) ==> e.storage.writes == old(e.storage.writes) + 1 && e.storage.lastKey == bstr(key)
+//@   ensures[C16] e.readOnly == old(e.readOnly)
+//@ func (*EngineFacade).ApplyBatchInternal
+//@   requires e.storage != nil && e.stats != nil
+//@   ensures[C16] !old(e.closed) ==> e.storage.writes == old(e.storage.writes) + 1
+//@   ensures[C16] e.readOnly == old(e.readOnly)
+//@ loop (*EngineFacade).ApplyBatchInternal#1
+//@   invariant[C16] e.storage.writes == old(e.storage.writes) && e.readOnly == old(e.readOnly)
+//@ loop (*EngineFacade).ApplyBatchInternal#2
+//@   invariant[C16] e.storage.writes == old(e.storage.writes) + 1 && e.readOnly == old(e.readOnly)
+
+// A read-only engine only hands out read-only transactions.
+//@ func (*EngineFacade).BeginTransaction
+//@   requires e.txManager != nil && e.stats != nil && lockstate(e.txManager.txLock) == 0
+//@   acquires e.txManager.txLock
+//@   ensures[C16] old(e.readOnly) && err == nil ==> typeIs(result0, "*transaction.TransactionImpl") && dyn(result0, "*transaction.TransactionImpl").mode == transaction.ReadOnly
+//@   ensures[C16,C04] !old(e.readOnly) && !readOnly && err == nil ==> typeIs(result0, "*transaction.TransactionImpl") && dyn(result0, "*transaction.TransactionImpl").mode == transaction.ReadWrite
+//@   ensures[C16] e.readOnly == old(e.readOnly) && e.storage.writes == old(e.storage.writes)
+
+// Reads do not consult the read-only flag and do not write.
+//@ func (*EngineFacade).Get
+//@   requires e.storage != nil && e.stats != nil
+//@   ensures[C16,C19] !old(e.closed) ==> e.storage.reads == old(e.storage.reads) + 1 && e.storage.lastKey == bstr(key)
+//@   ensures[C16] e.storage.writes == old(e.storage.writes) && e.readOnly == old(e.readOnly)
+//@ func (*EngineFacade).IsReadOnly
+//@   ensures[C16] result == e.readOnly && e.readOnly == old(e.readOnly)
+
+// ---- enumerations (decided over the SSA program on every run, so newly added code is covered)
+// every method of the facade that can reach a storage mutator is classified above (has a C16 clause)
+//@ rule[C16] mutators (*EngineFacade) via StorageManager.Put, StorageManager.Delete, StorageManager.ApplyBatch
+// the read-only flag is written only by SetReadOnly
+//@ rule[C16] writers (*EngineFacade).readOnly : (*EngineFacade).SetReadOnly
+// the guard-bypassing entries are reached only from pkg/replication; the flag is toggled only by the replication manager
+//@ rule[C16] callers (*EngineFacade).PutInternal : pkg/replication
+//@ rule[C16] callers (*EngineFacade).DeleteInternal : pkg/replication
+//@ rule[C16] callers (*EngineFacade).ApplyBatchInternal : pkg/replication
+//@ rule[C16] callers (*EngineFacade).SetReadOnly : pkg/replication::(*Manager).setEngineReadOnly, pkg/replication::(*EngineApplier).applyInReadOnlyMode
